@@ -101,6 +101,7 @@ class Ctx:
         self.samples_per_part: Counter = Counter()
         self.classes: Counter = Counter()
         self.part_evals: Counter = Counter()
+        self.part_time: dict = {}
         self.violations: list[Violation] = []
         self.known_hits: Counter = Counter()
         self.excluded: Counter = Counter()
@@ -231,8 +232,12 @@ class Ctx:
     def call(self, part: str, oracle: Callable, case):
         """Run an oracle on one case; classify exceptions."""
         self.begin(part, case)
+        t_start = time.time()
         try:
-            oracle(self, case)
+            try:
+                oracle(self, case)
+            finally:
+                self.part_time[part] = self.part_time.get(part, 0.0) + time.time() - t_start
         except Violation:
             raise
         except HarnessError:
@@ -409,6 +414,7 @@ class Ctx:
             "rule": self.rule,
             "samples": self.samples[:24],
             "per_part_evaluations": dict(self.part_evals),
+            "per_part_oracle_seconds": {k: round(v, 1) for k, v in self.part_time.items()},
             "classes": dict(sorted(self.classes.items())),
             "excluded": dict(self.excluded),
             "known_finding_hits": dict(self.known_hits),
